@@ -88,6 +88,14 @@ func (w *World) killProcLocked(p *Proc, code int, sig string) {
 	close(p.DeadCh)
 }
 
+// FreezeProc stops scheduling every goroutine of p for d of fake time (fault kind "freeze").
+func (w *World) FreezeProc(p *Proc, d time.Duration) {
+	if until := time.Now().Add(d); until.After(p.FrozenUntil) {
+		p.FrozenUntil = until
+	}
+	w.CountFault("freeze")
+}
+
 // AtExit registers a resource clean-up to run (under Big) when the process dies.
 func (p *Proc) AtExit(f func()) { p.cleanup = append(p.cleanup, f) }
 
